@@ -34,6 +34,33 @@ Definition gate (l : lcfg) (bits : N) (added removed : option N) (oldrel newrel 
   let trigger := N.land (lc_subs l) bits in
   negb (trigger =? 0)%N && subscribes trigger added removed (lc_comps l) oldrel newrel.
 
+(** listener.Dispatch: Subscriptions() is the union of the sub-listeners' subscriptions,
+    Components() the union of their component masks, or nil as soon as one sub-listener
+    has no restriction (NewDispatch and AddListener maintain exactly this). *)
+Definition outer_cfg (ls : lstn) : lcfg :=
+  match ls with
+  | LCallback l => l
+  | LDispatch subs =>
+      mkL (foldl (fun acc l => N.lor acc (lc_subs l)) 0%N subs)
+          (if forallb (fun l => bool_decide (is_Some (lc_comps l))) subs
+           then Some (foldl (fun acc l => N.lor acc (default 0%N (lc_comps l))) 0%N subs)
+           else None)
+  end.
+
+(** Who receives an event: the world gates with the listener's own Subscriptions() /
+    Components(); a Dispatch then gates again per sub-listener, with the event's Added /
+    Removed masks (Dispatch.Notify). *)
+Definition recipients (ls : lstn) (bits : N) (added removed : option N) (oldrel newrel : option nat)
+    (evadded evremoved : N) : list nat :=
+  if gate (outer_cfg ls) bits added removed oldrel newrel then
+    match ls with
+    | LCallback _ => [0]
+    | LDispatch subs =>
+        omap (fun '(i, l) => if gate l bits (Some evadded) (Some evremoved) oldrel newrel then Some i else None)
+             (imap (fun i l => (i, l)) subs)
+    end
+  else [].
+
 Definition opt_ne (a b : option nat) : bool :=
   match a, b with
   | None, None => false
@@ -49,9 +76,8 @@ Definition ev_create (w : world) (e : Entity) (mask : N) (ids : list nat) (newre
   | Some l =>
       let hr := bool_decide (is_Some newrel) in
       let bits := subscription true false (negb (bool_decide (ids = []))) false hr hr in
-      if gate l bits (Some mask) None None newrel
-      then [mkEv e mask 0 ids [] None newrel ezero bits (is_locked w)]
-      else []
+      map (mkEv e mask 0 ids [] None newrel ezero bits (is_locked w))
+          (recipients l bits (Some mask) None None newrel mask 0)
   end.
 
 (** Removal event (RemoveEntity, removeEntities): delivered with the world locked. *)
@@ -61,9 +87,8 @@ Definition ev_remove (w : world) (e : Entity) (nd : node) (target : Entity) : li
   | Some l =>
       let hr := node_has_rel nd in
       let bits := subscription false true false (negb (bool_decide (n_ids nd = []))) hr hr in
-      if gate l bits None (Some (n_mask nd)) (n_rel nd) None
-      then [mkEv e 0 (n_mask nd) [] (n_ids nd) (n_rel nd) None target bits true]
-      else []
+      map (mkEv e 0 (n_mask nd) [] (n_ids nd) (n_rel nd) None target bits true)
+          (recipients l bits None (Some (n_mask nd)) (n_rel nd) None 0 (n_mask nd))
   end.
 
 (** [World.notifyExchange]. *)
@@ -80,9 +105,8 @@ Definition ev_exchange (w : world) (e : Entity) (x : xinfo) (add rem : list nat)
           let changed := N.lxor (x_oldmask x) (n_mask nd) in
           let added := N.land (n_mask nd) changed in
           let removed := N.land (x_oldmask x) changed in
-          if gate l bits (Some added) (Some removed) (x_oldrel x) newrel
-          then [mkEv e added removed add rem (x_oldrel x) newrel (x_oldtarget x) bits (is_locked w)]
-          else []
+          map (mkEv e added removed add rem (x_oldrel x) newrel (x_oldtarget x) bits (is_locked w))
+              (recipients l bits (Some added) (Some removed) (x_oldrel x) newrel added removed)
       | None => []
       end
   | _, _ => []
@@ -93,9 +117,8 @@ Definition ev_target (w : world) (e : Entity) (rid : nat) (oldtarget : Entity) :
   match w_listener w with
   | None => []
   | Some l =>
-      if gate l 32 None None (Some rid) (Some rid)
-      then [mkEv e 0 0 [] [] (Some rid) (Some rid) oldtarget 32 (is_locked w)]
-      else []
+      map (mkEv e 0 0 [] [] (Some rid) (Some rid) oldtarget 32 (is_locked w))
+          (recipients l 32 None None (Some rid) (Some rid) 0 0)
   end.
 
 (** [World.notifyQuery]: events of a batch, one per entity in each range. *)
@@ -122,10 +145,9 @@ Definition ev_batch (w : world) (segs : list seg) (added_ids removed_ids : list 
                   end in
                 let bits := subscription created false (negb (bool_decide (added_ids = [])))
                                          (negb (bool_decide (removed_ids = []))) relch (relch || tgch) in
-                if gate l bits (Some added) (Some removed) oldrel newrel
-                then map (fun e => mkEv e added removed added_ids removed_ids oldrel newrel oldtarget bits (is_locked w))
+                flat_map (fun e => map (mkEv e added removed added_ids removed_ids oldrel newrel oldtarget bits (is_locked w))
+                                        (recipients l bits (Some added) (Some removed) oldrel newrel added removed))
                          (take (s_end s - s_start s) (drop (s_start s) (t_ents t)))
-                else []
             end
         end) segs
   end.
@@ -724,7 +746,7 @@ Inductive op :=
 | OResRemove (id : nat)
 | OResGet (id : nat)
 | OResHas (id : nat)
-| OSetListener (l : option lcfg)
+| OSetListener (l : option lstn)
 | OIsLocked
 | OStats.
 
